@@ -210,6 +210,18 @@ let handle (x : Sexp.t) : string =
               match wrong with
               | Some (i, r) -> Some (Printf.sprintf "%s history: member %d: cached model gives %s, implementation %s" name i (show_sres r) (List.nth shared_txt i))
               | None ->
+                  (* the same history through the driver model over the CONTAINER model of this instance
+                     (Model.SimplifyCacheRefs over Model.ExprMeta): same results, same cache entries as the tree-keyed model *)
+                  let es = List.map (fun i -> List.nth exprs i) ord in
+                  let (rrs, entry) =
+                    if name = "dense" then (let ((c, m), rs) = simplify_batch_dense big_fuel es in (rs, cache_entry dense_ops c m))
+                    else (let ((c, m), rs) = simplify_batch_sparse big_fuel es in (rs, cache_entry sparse_ops c m)) in
+                  if List.map show_sres rrs <> List.map (fun (_, r) -> show_sres r) rs then
+                    Some (name ^ " history: the container-level driver model and the tree-keyed driver model give different results")
+                  else match List.find_opt (fun (k, _) -> match entry k, lookup mc k with
+                                                          | Some v, Some v' -> not (expr_eqb v v') | _, _ -> true) mc with
+                  | Some (k, _) -> Some (name ^ " history: container-level driver model: different cache entry for " ^ Sexp.to_string (sexp_of_expr k))
+                  | None ->
                   (match cache_entries cache_name fs with
                    | None -> None
                    | Some impl -> (match cache_diff impl mc with Some d -> Some (name ^ " cache: " ^ d) | None -> None)) in
